@@ -27,7 +27,9 @@ C09_GEN = T([dict(cfg="GEN_Token.cfg", num=20, depth=16, seeds=6, driver_cfg=C09
 # token_cover_*: scripted coverage suites — every antecedent in `required` is exercised
 # by them on the unchanged tree, so vacuity never depends on the seed
 C09_SCN = [dict(file="scenarios/token_F5.ndjson", cfg=C09_GEN_CFG),
-           dict(file="scenarios/token_cover_c09.ndjson", cfg=C09_GEN_CFG)]
+           dict(file="scenarios/token_cover_c09.ndjson", cfg=C09_GEN_CFG),
+           # one name as symbol of one token and min unit of another (separate key spaces)
+           dict(file="scenarios/token_namespace.ndjson", cfg=C09_GEN_CFG)]
 
 C10_MC = T([dict(cfg="MC_TokenMath.cfg", timeout=900, workers=4, heap="4g"), dict(cfg="MC_TokenErc.cfg", timeout=900, heap="4g")],
            [dict(cfg="MC_TokenMath.cfg", timeout=900, workers=4, heap="4g"), dict(cfg="MC_TokenErc_big.cfg", timeout=3000, heap="4g")])
